@@ -130,7 +130,9 @@ impl GenCfg {
         c.inbound_absent_ids = rng.chance(1, 2);
         c.inbound_multi_ids = rng.chance(1, 3);
         c.drop_streams = rng.chance(1, 3);
-        c.receive_max = None;
+        // the server's Receive Maximum limits what the client sends, never what it receives:
+        // small values next to bursts of unreleased inbound QoS 2 messages
+        c.receive_max = if rng.chance(1, 3) { Some(rng.range(1, 3) as u16) } else { None };
         c
     }
 }
@@ -160,6 +162,7 @@ pub struct Gen<'a> {
     pub config: Config,
     /// Deliver the next broker packets whole and at once (set around steps that must arrive).
     pub force_whole: bool,
+    id_jumped: bool,
 }
 
 impl<'a> Gen<'a> {
@@ -187,6 +190,7 @@ impl<'a> Gen<'a> {
             unreleased: Vec::new(),
             config,
             force_whole: false,
+            id_jumped: false,
         }
     }
 
@@ -275,6 +279,31 @@ impl<'a> Gen<'a> {
         self.settle();
     }
 
+    /// A first connection that dies in the middle of an inbound packet (some of its bytes were
+    /// read, the rest never came). Whatever follows starts with `Step::Reconnect` on the same
+    /// Context: nothing of the dead connection's byte stream may leak into the new one.
+    pub fn cut_connection_prelude(&mut self) {
+        let connect = ConnectSpec { client_id: Some("sim".into()), ..Default::default() };
+        self.push(Step::Start { connect, auths: vec![] });
+        self.settle();
+        self.push(Step::Broker { pkt: BrokerPkt::Connack { session_present: false, reason: 0, props: Props::new() }, chunks: Chunks::Whole, hold: false });
+        self.settle();
+        let n = self.rng.urange(0, 40);
+        let mut payload = b"cut:".to_vec();
+        payload.extend(self.rng.bytes(n));
+        let first = self.rng.urange(1, 8);
+        self.inbound_count += 1;
+        self.push(Step::Broker {
+            pkt: BrokerPkt::Publish { subs: vec![], qos: 0, id: IdSpec::Fresh, dup: false, retain: false, topic: "in/cut".into(), payload, props: Props::new() },
+            chunks: Chunks::Each(first),
+            hold: true,
+        });
+        self.push(Step::Deliver { n: 1 });
+        self.settle();
+        self.push(Step::Fault(FaultKind::ReadEof));
+        self.settle();
+    }
+
     pub fn next_op_id(&self) -> usize {
         self.world.ops.keys().next_back().map(|k| k + 1).unwrap_or(0)
     }
@@ -356,15 +385,7 @@ impl<'a> Gen<'a> {
     }
 
     fn pubrel_on_wire(&self, op: usize) -> bool {
-        let Some(&pid) = self.world.op_pid.get(&op) else { return false };
-        // the latest transmission of the op's PUBLISH (a resumed session re-sends it)
-        let Some(pub_at) = self.world.wire.iter().rev().find(|p| marker_of(&p.pkt) == Some(op)).map(|p| (p.conn, p.off)) else {
-            return false;
-        };
-        let cur = self.world.conn().unwrap_or(0);
-        self.world.wire.iter().any(|p| {
-            matches!(&p.pkt, Packet::Pubrel(a) if a.pid == pid) && ((p.conn == pub_at.0 && p.off > pub_at.1) || (p.conn > pub_at.0 && p.conn == cur))
-        })
+        self.world.pubrel_on_wire(op)
     }
 
     /// Forgets that an acknowledgement was sent (it was lost with the connection).
@@ -396,6 +417,11 @@ impl<'a> Gen<'a> {
             }
         }
         out
+    }
+
+    /// The broker script will never acknowledge `op` (its session is gone).
+    pub fn mark_final(&mut self, op: usize) {
+        self.stage.insert(op, Stage::Final);
     }
 
     pub fn send_ack(&mut self, op: usize, kind: AckKind) {
@@ -520,6 +546,87 @@ impl<'a> Gen<'a> {
             return;
         }
         self.broker(BrokerPkt::Publish { subs, qos, id, dup, retain, topic: format!("in/{n}"), payload, props });
+    }
+
+    /// One small QoS 0 message addressed to the subscription of operation `op`.
+    pub fn inbound_publish_to(&mut self, op: usize) {
+        let n = self.inbound_count;
+        self.inbound_count += 1;
+        self.broker(BrokerPkt::Publish {
+            subs: vec![SubRef::Op(op)],
+            qos: 0,
+            id: IdSpec::Fresh,
+            dup: false,
+            retain: false,
+            topic: format!("in/{n}"),
+            payload: format!("m{n}:").into_bytes(),
+            props: Props::new(),
+        });
+    }
+
+    /// Brings identifiers that collide under truncation (low byte, high byte, 15 bits) next to
+    /// each other: while an operation with identifier k awaits its acknowledgement, the counter
+    /// jumps so that the next operation gets k+256, k+512, k+0x8000 or byte-swapped k. At most
+    /// once per scenario (identifiers used so far form one contiguous range, which the target
+    /// must stay clear of: the property's proviso is the harness's duty here).
+    pub fn id_jump(&mut self) {
+        if self.id_jumped {
+            return;
+        }
+        let waiting: Vec<u16> = self.ack_candidates().iter().filter_map(|(op, _)| self.world.op_pid.get(op).copied()).collect();
+        if waiting.is_empty() {
+            return;
+        }
+        let used: Vec<u16> = self.world.wire.iter().filter_map(|w| w.pkt.pid()).collect();
+        let (lo, hi) = (*used.iter().min().unwrap() as u32, *used.iter().max().unwrap() as u32);
+        let k = *self.rng.pick(&waiting) as u32;
+        let cands = [k + 256, k + 512, k + 0x8000, ((k & 0xff) << 8) | (k >> 8), k + 0x4000, k + 128];
+        let ok: Vec<u32> = cands.iter().copied().filter(|c| *c >= 1 && *c < 65_000 && (*c > hi + 40 || *c + 40 < lo)).collect();
+        if ok.is_empty() {
+            return;
+        }
+        let target = *self.rng.pick(&ok) as u16;
+        let max_sub = self.world.op_subid.values().copied().max().unwrap_or(0);
+        self.id_jumped = true;
+        self.push(Step::SetNextIds { packet_id: target, sub_id: max_sub + 1000 });
+        // the operation that takes the colliding identifier, acknowledged ahead of the older one
+        let id = self.next_op_id();
+        let kind = if self.rng.coin() { 1 } else { 2 };
+        let spec = self.new_op_spec(kind, id);
+        self.push(Step::Op { id, handle: 0, spec });
+        self.settle();
+        if self.rng.chance(2, 3) {
+            let want = if kind == 1 { AckKind::Puback } else { AckKind::Pubrec };
+            if self.ack_candidates().contains(&(id, want)) {
+                self.send_ack(id, want);
+                self.settle();
+            }
+        }
+    }
+
+    /// A burst of messages for one subscription, sized next to small powers of two (budgets,
+    /// batch sizes and ring buffers live there).
+    pub fn burst(&mut self) {
+        let subs = self.subs_on_wire();
+        if subs.is_empty() {
+            return;
+        }
+        let sub = *self.rng.pick(&subs);
+        let n = *self.rng.pick(&[15usize, 16, 17, 31, 32, 33, 63, 64, 65, 100, 130]);
+        for _ in 0..n {
+            self.inbound_publish_to(sub);
+        }
+    }
+
+    /// Subscriptions on the wire whose stream has not been opened yet.
+    pub fn unopened_subs(&self) -> Vec<usize> {
+        self.subs_on_wire().into_iter().filter(|s| !self.opened.contains(s)).collect()
+    }
+
+    /// Opens the stream of a subscription (bookkeeping shared with the random actions).
+    pub fn open_stream(&mut self, op: usize) {
+        self.opened.insert(op);
+        self.push(Step::OpenStream(op));
     }
 
     fn nth_inbound_publish_step(&self, n: usize) -> Option<&Step> {
@@ -691,6 +798,20 @@ impl<'a> Gen<'a> {
 
     /// Broker-view number of QoS>0 publishes that occupy a Receive Maximum slot.
     pub fn outstanding_quota(&self) -> usize {
+        if self.world.pipes.len() > 1 {
+            let live = self.world.live_tasks();
+            // resumed session: what the broker still expects an answer for = operations that
+            // reached the wire and have not been completed by the script
+            return self
+                .world
+                .ops
+                .iter()
+                .filter(|(op, info)| matches!(info.spec.publish_qos(), Some(1) | Some(2)) && self.world.op_pid.contains_key(*op))
+                .filter(|(op, _)| !matches!(self.stage.get(*op), Some(Stage::Final) | Some(Stage::PubrecFail)))
+                // operations abandoned with an expired session have returned (ContextExited)
+                .filter(|(op, _)| live.contains(&TaskRef::Op(**op)))
+                .count();
+        }
         let sent = self
             .world
             .wire
